@@ -62,6 +62,24 @@ def reference(c, kind, X, B):
     return out
 
 
+def gen_blockcase(rng, cid, P):
+    """square scalar matrix whose row/column partition is the default block partition of the block grid times the block size
+    (what ParCSRMatrix::to_ParBSR(b, b) requires)"""
+    if rng.random() < 0.35:
+        # non-square blocks: n = m*br*bc with P | m, so that the default partitions of the n/br block rows and of the
+        # n/bc block columns both are the even split of the scalars
+        br, bc = rng.choice([(1, 2), (2, 1), (2, 3), (3, 2), (1, 3)]); m = P * rng.randint(1, 2); n = m * br * bc
+        frs = [(n // P) * p for p in range(P + 1)]; fcs = list(frs)
+    else:
+        nb = rng.randint(1, 7); br = bc = rng.choice([1, 2, 2, 3])
+        fr, fc = default_partition(nb, nb, P)
+        n = nb * br
+        frs = [v * br for v in fr]; fcs = [v * bc for v in fc]
+    trip = gen.rand_triples(rng, n, n, rng.choice([0, 1, 2 * n, 4 * n, n * n]) if n else 0)
+    trip = list({(i, j): (i, j, v) for (i, j, v) in trip}.values())       # to_ParBSR overwrites: one value per position
+    return dict(cid=cid, nr=n, nc=n, P=P, fr=frs, fc=fcs, explicit=True, trip=trip, br=br, bc=bc)
+
+
 def run(ctx):
     rng = ctx.rng
     try:
@@ -73,8 +91,9 @@ def run(ctx):
     for P in procs:
         cases = []
         for k in range(per):
-            c = gen_parcase(rng, "p%d_%d" % (P, k), P)
-            kind = rng.choice(KINDS); fmt = rng.choice(["coo", "csr", "csc"])
+            blk = rng.random() < 0.2
+            c = gen_blockcase(rng, "p%d_%d" % (P, k), P) if blk else gen_parcase(rng, "p%d_%d" % (P, k), P)
+            kind = rng.choice(KINDS); fmt = rng.choice(["coo", "csr", "csc"]) if not blk else "bsr%dx%d" % (c["br"], c["bc"])
             tap = 1 if (rng.random() < 0.35 and P >= 2) else 0
             ppn = rng.choice([d for d in (1, 2, 3, 4, 8) if P % d == 0 or d >= P]) if tap else 4
             T = kind == "mult_T"
@@ -91,7 +110,7 @@ def run(ctx):
         if rc != 0: ctx.signal("K", "modeldriver", "model driver failed: " + err[-300:])
         for c in cases:
             ctx.evaluations += 1
-            ctx.count("par_P=%d" % P); ctx.count("par_" + c["kind"]); ctx.count("par_fmt_" + c["fmt"])
+            ctx.count("par_P=%d" % P); ctx.count("par_" + c["kind"]); ctx.count("par_fmt_" + c["fmt"][:3])
             if c["tap"]: ctx.count("par_tap")
             if not c["explicit"]: ctx.count("par_default_partition")
             if any(c["fr"][p] == c["fr"][p + 1] for p in range(P)): ctx.count("par_empty_rank")
